@@ -188,17 +188,20 @@ func (tds *Conn) PacketBodySize() int {
 }
 
 func (tds *Conn) getValidChannelId() (int, error) {
-	curId := int(tds.tdsChannelCurFreeId)
+	// increment ID before recursing or returning - reading and
+	// incrementing must be a single atomic operation, otherwise
+	// concurrent callers receive the same ID.
+	curId := int(atomic.AddUint32(&tds.tdsChannelCurFreeId, 1) - 1)
 
 	if curId > math.MaxUint16 {
 		// TODO create error
 		return 0, fmt.Errorf("exhausted all channel IDs")
 	}
 
-	// increment ID before recursing or returning
-	atomic.AddUint32(&tds.tdsChannelCurFreeId, 1)
-
-	if _, ok := tds.tdsChannels[curId]; ok {
+	tds.tdsChannelsLock.RLock()
+	_, ok := tds.tdsChannels[curId]
+	tds.tdsChannelsLock.RUnlock()
+	if ok {
 		// ChannelId is already used, recurse
 		return tds.getValidChannelId()
 	}
